@@ -309,6 +309,16 @@ fn ranges(off: &[usize]) -> String {
     }
 }
 
+/// `core::panic_site()` made independent of where the tree under test lives (stable signatures
+/// also when the check is run against a scratch copy of /repo): path from `src/` on.
+fn site() -> String {
+    let s = panic_site();
+    match s.rfind("/src/") {
+        Some(i) => s[i + 1..].to_string(),
+        None => s,
+    }
+}
+
 fn tagsep(t: &str) -> String {
     if t.is_empty() {
         String::new()
@@ -377,7 +387,7 @@ pub fn check<T: Rt>(acc: &mut Acc, tier: Tier, r: &T::R<'_>, c: &T::Ctx, o: &Ori
     let n = match catch_unwind(AssertUnwindSafe(|| T::blen(r, c))) {
         Ok(n) => n,
         Err(e) => {
-            let site = panic_site();
+            let site = site();
             let (m, l) = (panic_msg(e), last_panic_loc());
             acc.viol(
                 format!("C06/buffer_len-panic/{}{}/{}", T::NAME, tagsep(&tag), site),
@@ -402,7 +412,7 @@ pub fn check<T: Rt>(acc: &mut Acc, tier: Tier, r: &T::R<'_>, c: &T::Ctx, o: &Ori
                 return None;
             }
             Err(e) => {
-                let site = panic_site();
+                let site = site();
                 let (m, l) = (panic_msg(e), last_panic_loc());
                 acc.viol(
                     format!("C06/emit-panic/{}{}/{}", T::NAME, tagsep(&tag), site),
@@ -489,7 +499,7 @@ pub fn check<T: Rt>(acc: &mut Acc, tier: Tier, r: &T::R<'_>, c: &T::Ctx, o: &Ori
             );
         }
         Err((m, l)) => {
-            let site = panic_site();
+            let site = site();
             acc.viol(
                 format!("C06/{}-parse-panic/{}{}/{}", clause, T::NAME, tagsep(&tag), site),
                 || format!("parsing the bytes emitted from a {} value panicked: {} at {}; value {:?} emitted {}", kind, m, l, r, hex(&bufs[0])),
@@ -849,7 +859,7 @@ pub fn run(tier: Tier) -> i32 {
     for a in [
         "enum_with_unknown types: Unknown(x) only for x that is not one of the named values (Unknown(known) is a second spelling of the same wire value)",
         "Icmpv4Repr error messages: embedded header.payload_len = data.len() >= 8 (the parser reports the length it can see; longer originals are cut by design)",
-        "Icmpv6Repr error messages: data.len() <= 1192 (cut to the minimum MTU by design beyond that)",
+        "Icmpv6Repr error messages with more quoted data than buffer_len() admits (> 1192 bytes): the expected parse result is the value with data cut to buffer_len() - 8 - 40 bytes (the cut the statement calls by design); everything else must hold unchanged (no panic, bytes independent of the buffer)",
         "NDISC: link-layer addresses of 6 or 8 bytes (the lengths RawHardwareAddress::parse knows); RedirectedHeader with header.payload_len = data.len(); NdiscRepr / MldRepr are emitted without the checksum, which the enclosing Icmpv6Repr::emit owns (harness zeroes it; the full path is covered under Icmpv6Repr)",
         "MldRepr::ReportRecordReprs is emit-only: declared length = 8 + 20 per record and equality = the parsed Report carries the same records; MldAddressRecordRepr: multicast addresses only (documented panic otherwise), payload written by the harness",
         "IgmpRepr: v1 query <-> max_resp_time 0; v2 query only with durations an 8-bit max-resp code denotes; group 0.0.0.0 or multicast",
@@ -1003,6 +1013,9 @@ pub mod alpha {
             Ipv6Address::new(0xfd00, 0, 0, 0, 0, 0, 0, 1),
             Ipv6Address::new(0xff05, 0, 0, 0, 0, 0, 1, 3),
             Ipv6Address::new(0xffff, 0xffff, 0xffff, 0xffff, 0xffff, 0xffff, 0xffff, 0xffff),
+            // fe80::/10 outside fe80::/64
+            Ipv6Address::new(0xfe80, 0, 0, 1, 0, 0, 0, 0xabcd),
+            Ipv6Address::new(0xfebf, 0xffff, 0, 0, 0, 0, 0, 1),
         ]
     }
     pub fn protos() -> Vec<IpProtocol> {
